@@ -117,7 +117,7 @@ def check(run, replay=None):
     # correspondence below decides alone and is run on the thorough case set
     tie = run.prove("Props/C05T", THEOREMS_T, strengthening=True)
     # ... and of the macro's construction of the lists handed to the assertion (one per attached interface, in order)
-    run.prove("Props/C05I", ["c05_translated_overlap_lists_of_interfaces"], strengthening=True)
+    run.prove("Props/C05I", ["c05_translated_overlap_lists_of_interfaces", "c05_translated_overlap_assertion_sees_every_part"], strengthening=True)
     deep = thorough or not tie
     if replay:
         data = json.load(open(replay))
